@@ -201,6 +201,27 @@ def subworkflow_cases(check):
         add({"workflow.yaml": main % "a.yaml", "a.yaml": SUB_TMPL % "b.yaml", "b.yaml": leaf}, "nested sub-workflow without an output named success (%d)" % k, "sub-outputs:other-names-nested", "error")
     add({"workflow.yaml": main % "a.yaml", "a.yaml": LEAF.replace("outputs:\n  success:", "output:")}, "sub-workflow with the deprecated single output", "sub-outputs:legacy", "ok")
     add({"workflow.yaml": main % "a.yaml", "a.yaml": LEAF + "  extra: {e: !expr \"$.steps.w.outputs.success.tag\"}\n"}, "sub-workflow with success and another output", "sub-outputs:success+other", "ok")
+    # the same trees with the loop steps spelled in other valid ways: the kind in a double-quoted scalar with escapes, flow and
+    # block styles mixed, comments and anchors around
+    ESC = SUB_TMPL.replace("kind: foreach", 'kind: "\\x66oreach"')
+    BLOCK = SUB_TMPL.replace("loop: {kind: foreach, workflow: %s, items: [{tag: !expr \"$.input.tag\"}]}", "loop:\n    items:\n      - tag: !expr $.input.tag\n    workflow: %s   # the file\n    kind: >-\n      foreach")
+    for name, tmpl in (("escaped-kind", ESC), ("block-style-kind", BLOCK)):
+        add({"workflow.yaml": main % "mid.yaml", "mid.yaml": tmpl % "leaf.yaml", "leaf.yaml": LEAF}, "nested chain, middle file with %s" % name, "spelling:%s:nested" % name, "ok")
+        add({"workflow.yaml": main % "a.yaml", "a.yaml": tmpl % "a.yaml"}, "sub-workflow with %s references itself" % name, "spelling:%s:self" % name, "error")
+        add({"workflow.yaml": main % "a.yaml", "a.yaml": tmpl % "b.yaml", "b.yaml": tmpl % "a.yaml"}, "mutually referencing sub-workflows with %s" % name, "spelling:%s:mutual" % name, "error")
+        add({"workflow.yaml": main % "a.yaml", "a.yaml": tmpl % "missing.yaml"}, "missing nested sub-workflow below %s" % name, "missing:nested", "error")
+    # sub-workflows (and main workflows) whose input objects refer to each other: to themselves, mutually, in a cycle of three
+    def recursive(objs, root="Item"):
+        body = ", ".join("%s: {id: %s, properties: {tag: {required: %s, type: {type_id: string}}%s}}" % (
+            oid, oid, "true" if oid == root else "false", "".join(", %s: {required: false, type: {type_id: ref, id: %s}}" % (pn, tgt) for pn, tgt in refs)) for oid, refs in objs)
+        return "version: v0.2.0\ninput: {root: %s, objects: {%s}}\nsteps:\n  w: {plugin: {src: leaf_w, deployment_type: scripted}, input: {tag: !expr \"$.input.tag\"}}\noutputs:\n  success: {t: !expr \"$.steps.w.outputs.success.tag\"}\n" % (root, body)
+    for name, objs in (("self", [("Item", [("child", "Item")])]), ("mutual", [("Item", [("first", "Entry")]), ("Entry", [("parent", "Item")])]),
+                       ("cycle-of-three", [("Item", [("a", "A")]), ("A", [("b", "B")]), ("B", [("back", "Item"), ("again", "A")])]),
+                       ("mutual-not-through-root", [("Item", [("x", "P")]), ("P", [("q", "Q")]), ("Q", [("p", "P")])])):
+        add({"workflow.yaml": main % "a.yaml", "a.yaml": recursive(objs)}, "loop over a sub-workflow with %s-referencing input objects" % name, "recursive-input:%s" % name, "ok")
+        add({"workflow.yaml": main % "a.yaml", "a.yaml": SUB_TMPL % "b.yaml", "b.yaml": recursive(objs)}, "nested loop over a sub-workflow with %s-referencing input objects" % name, "recursive-input:%s:nested" % name, "ok")
+        add({"workflow.yaml": recursive([(("RootObject" if o == "Item" else o), [(pn, "RootObject" if t == "Item" else t) for pn, t in refs]) for o, refs in objs], root="RootObject")},
+            "main workflow with %s-referencing input objects" % name, "recursive-input:%s:main" % name, "ok")
     add({"workflow.yaml": ""}, "empty main file", "empty-main", "error")
     add({"other.yaml": LEAF}, "no workflow.yaml", "no-main", "error")
     return out
